@@ -236,8 +236,43 @@ def collector(ctx):
     _creates_provide(ctx, "Collector", "targets", True)
 
 
+def create_forwards_options(ctx):
+    """Every `create` helper builds its transformer with the options it was given: a parameter of `create` that the constructor
+    also has (same name) reaches the constructor call as that argument.  (A dropped keyword leaves the constructor's default in
+    force: MethodFilter.create(..., use_condition=True) would silently build the blocking m.If variant.)"""
+    import ast
+
+    mi = ctx.repo.module(TR)
+    n = 0
+    for cls in [c for c in mi.tree.body if isinstance(c, ast.ClassDef)]:
+        fns = {f.name: f for f in cls.body if isinstance(f, ast.FunctionDef)}
+        cr, init = fns.get("create"), fns.get("__init__")
+        if cr is None or init is None:
+            continue
+        a = init.args
+        init_params = [x.arg for x in a.posonlyargs + a.args][1:] + [x.arg for x in a.kwonlyargs]
+        c = cr.args
+        cr_params = [x.arg for x in c.posonlyargs + c.args + c.kwonlyargs if x.arg not in ("cls", "self")]
+        shared = [x for x in cr_params if x in init_params and x != "src_loc"]  # the source location is diagnostic only
+        calls = [k for k in ast.walk(cr) if isinstance(k, ast.Call) and isinstance(k.func, ast.Name) and k.func.id in (cls.name, "cls")]
+        if not calls:
+            continue
+        n += 1
+        call = calls[0]
+        passed = {k.arg for k in call.keywords if k.arg is not None and any(isinstance(x, ast.Name) and x.id == k.arg for x in ast.walk(k.value))}
+        pos = [x.arg for x in a.posonlyargs + a.args][1:]
+        for idx, arg in enumerate(call.args):
+            if isinstance(arg, ast.Name) and idx < len(pos) and pos[idx] == arg.id:
+                passed.add(arg.id)
+        missing = [x for x in shared if x not in passed]
+        ctx.check(not missing, "C18.create-forwards-options", f"{TR}:{cr.lineno}", f"{cls.name}.create", found=f"not handed to the constructor: {missing}" if missing else f"all of {shared}",
+                  required="every option of create() that the constructor has is passed on under its name")
+    ctx.floor("C18", "create helpers with a constructor call", n, 4, TR)
+
+
 def check(ctx):
     ctx.use(TR, CN)
+    create_forwards_options(ctx)
     connect_trans(ctx)
     crossbar(ctx)
     method_map(ctx)
